@@ -758,8 +758,8 @@ func generateMore(suite string, seed uint64, i int, r *rng, id string, g gp) *Ca
 		k := []int{2, 4, 8, 16, 32, 64}[r.intn(6)]
 		var runs []Run
 		wide := r.chance(1, 5) // layers wider than 32 nodes: per-call scratch buffers chosen by size
-		if wide && k > 8 {
-			k = 8
+		if wide && k > 4 { // under the race detector and GOMAXPROCS=1 these are slow: fewer calls, a generous budget
+			k = 4
 		}
 		for j := 0; j < k; j++ {
 			g.maxN, g.maxM = 7, 10
@@ -783,7 +783,11 @@ func generateMore(suite string, seed uint64, i int, r *rng, id string, g gp) *Ca
 			}
 			runs = append(runs, Run{cfg, edges})
 		}
-		return &Case{ID: id, Op: "concurrent", Arg: map[string]any{"gomaxprocs": float64([]int{1, 2, 16}[r.intn(3)]), "rounds": 2.0, "timeout_ms": 60000.0}, Runs: runs}
+		tmo := 60000.0
+		if wide {
+			tmo = 300000.0
+		}
+		return &Case{ID: id, Op: "concurrent", Arg: map[string]any{"gomaxprocs": float64([]int{1, 2, 16}[r.intn(3)]), "rounds": 2.0, "timeout_ms": tmo}, Runs: runs}
 	}
 	return nil
 }
